@@ -2,6 +2,7 @@ package sim
 
 import (
 	"errors"
+	"fmt"
 	"strings"
 
 	cerrors "github.com/pip-services3-gox/pip-services3-commons-gox/errors"
@@ -141,16 +142,65 @@ func FailureError(k int) error {
 	}
 }
 
+// values whose own methods misbehave when somebody formats them
+type nilRecvError struct{ msg string }
+
+func (e *nilRecvError) Error() string { return e.msg } // with a nil receiver: nil dereference
+
+type panickyError struct{}
+
+func (panickyError) Error() string { panic("Error() of the panic value panics") }
+
+type panickyStringer struct{}
+
+func (panickyStringer) String() string { panic("String() of the panic value panics") }
+
+// PanicValue is what a delegate panics with: texts, error values of several types, and (one in
+// three) values that are awkward to report - a typed nil error, an error or Stringer whose own
+// method panics, a genuine runtime error, an int, a struct, an uncomparable value, a wrapped error.
+func PanicValue(k int) (v any) {
+	if k < 0 {
+		k = -k
+	}
+	switch sel := k % 24; {
+	case sel < 8:
+		return FailureText(k)
+	case sel < 16:
+		return FailureError(k) // an error value as panic value
+	case sel == 16:
+		return (*nilRecvError)(nil)
+	case sel == 17:
+		return panickyError{}
+	case sel == 18:
+		return panickyStringer{}
+	case sel == 19:
+		func() {
+			defer func() { v = recover() }()
+			var m map[string]int
+			m["x"] = k // a genuine runtime.Error
+		}()
+		return v
+	case sel == 20:
+		return k
+	case sel == 21:
+		return struct {
+			Code int
+			Why  string
+		}{k, FailureText(k)}
+	case sel == 22:
+		return []int{k}
+	default:
+		return fmt.Errorf("wrapped: %w", FailureError(k))
+	}
+}
+
 func (f *FnFault) Delegate(inner functions.FunctionCalculator) functions.FunctionCalculator {
 	return func(params []*variants.Variant, ops variants.IVariantOperations) (*variants.Variant, error) {
 		f.Calls++
 		if f.Kind != "" && f.Calls == f.At {
 			f.Fired = true
 			if f.Kind == "fn_panic" {
-				if f.Msg%16 >= 8 {
-					panic(FailureError(f.Msg)) // an error value as panic value
-				}
-				panic(FailureText(f.Msg))
+				panic(PanicValue(f.Msg))
 			}
 			if f.Kind == "fn_both" {
 				// a sloppy delegate: an error together with a non-nil result
